@@ -30,8 +30,6 @@ def supported(c):
         for k in ("policy_in", "policy_out"):
             if k in n and _pol(n[k]) is None:
                 return False
-        if isinstance(n.get("iat", []), dict) or isinstance(n.get("pd", []), dict):
-            return False
     for e in c["edges"]:
         if e["type"] not in ("buffer", "fleet") or isinstance(e.get("delay", 0), list):
             return False
@@ -52,7 +50,20 @@ def tla(v):
     raise TypeError(v)
 
 
+def _unroll(c):
+    """constant delays (constructs, repository test scenarios) as finite scripts that cover the model's horizon"""
+    def one(n):
+        n = dict(n)
+        if isinstance(n.get("iat"), dict):
+            n["iat"] = [n["iat"]["const"]] * (MAXT // max(1, n["iat"]["const"]) + 2)
+        if isinstance(n.get("pd"), dict):
+            n["pd"] = [n["pd"]["const"]]
+        return n
+    return dict(c, nodes=[one(n) for n in c["nodes"]])
+
+
 def to_model(c):
+    c = _unroll(c)
     nodes = []
     for i, n in enumerate(c["nodes"]):
         ins = [j + 1 for j, e in enumerate(c["edges"]) if e["dst"] == i]
@@ -109,6 +120,13 @@ def model_configs(tier):
         # two sources + multi-worker machine + fleet + machine: ~70 000 states per configuration over all interleavings;
         # kept for the thorough tier
         C = [c for c in C if not c["family"].startswith("2S-B-M-F-M-B-K")]
+        # endless sources (constant inter-arrival time: constructs, repository test scenarios) are unrolled to the horizon;
+        # the fastest of them (one item per tick, or two free-running non-blocking sources) take minutes: thorough tier
+        def heavy(c):
+            srcs = [n for n in c["nodes"] if n["type"] == "source" and isinstance(n["iat"], dict)]
+            return (any(n["iat"]["const"] <= 1 for n in srcs) or len(srcs) >= 2
+                    or (c.get("via") == "chain" and c["chain"]["count"] >= 5))
+        C = [c for c in C if not heavy(c)]
     if tier != "quick":
         import random
         rng = random.Random("factory-model")
@@ -119,7 +137,7 @@ def model_configs(tier):
         if not any(n["type"] in ("combiner", "splitter") for n in c["nodes"]):
             return False
         srcs = [n for n in c["nodes"] if n["type"] == "source"]
-        return sum(1 for n in srcs if sum(list(n["iat"])[:5]) == 0) >= 2
+        return sum(1 for n in srcs if not isinstance(n["iat"], dict) and sum(list(n["iat"])[:5]) == 0) >= 2
     C = [c for c in C if not burst(c)]
     if tier == "quick":
         # the quick tier keeps a sample of the families whose graphs are large; the thorough tier keeps all
@@ -135,7 +153,8 @@ def model_configs(tier):
     out = []
     for c in C:
         c = dict(c)
-        c["nodes"] = [dict(n, iat=list(n["iat"])[:5]) if n["type"] == "source" else n for n in c["nodes"]]
+        c["nodes"] = [dict(n, iat=list(n["iat"])[:5]) if n["type"] == "source" and not isinstance(n["iat"], dict) else n
+                      for n in c["nodes"]]
         out.append(c)
     return out
 
